@@ -58,7 +58,9 @@ pub fn judge(ctx: &mut Ctx, c: &Case) {
   let mut rng = Rng::new(c.gu("s"), 13);
   let thr = thresholds();
   ctx.eval();
+  precall(c);
   let res = catch(|| if dd == 0 { nested::elliptical_cone_coverage(depth, lon, lat, a, b, pa) } else { nested::elliptical_cone_coverage_custom(depth, dd, lon, lat, a, b, pa) });
+  postcall();
   let bm = match res { Ok(x) => x, Err(p) => { ctx.violation("elliptical-cone-coverage-panics-on-valid-input", c.clone().s("at", panic_loc(&p)), p); return; } };
   let c09 = ctx.prop == "C09";
   let cells = match walk(&bm, 100_000) { Ok(_) => cells_of(&bm), Err(e) => { ctx.violation(if c09 { "malformed-bmoc-from-elliptical_cone_coverage" } else { "elliptical-cone-coverage-result-not-well-formed" }, c.clone(), e); return; } };
